@@ -2,6 +2,7 @@
 # usage: tools/check_seeded.sh [seeded ids...] — applies every kept seeded change to /repo in turn, runs the quick check of
 # its property and reports whether it is still caught (exit 1 with a VIOLATION line).  Leaves /repo clean.
 cd "$(dirname "$(readlink -f "$0")")/.."
+evbak=$(mktemp -d); cp -a evidence/. "$evbak"/   # evidence of mutant runs is not evidence: restored at the end
 ids="$@"; [ -z "$ids" ] && ids=$(ls seeded)
 for id in $ids; do
   d=seeded/$id; prop=$(python3 -c "import json; print(json.load(open('$d/meta.json'))['property'])")
@@ -12,5 +13,6 @@ for id in $ids; do
   sig=$(echo "$out" | grep -m1 "signature:" | cut -c1-150)
   echo "SEEDED $id prop=$prop rc=$rc $sig"
 done
+cp -a "$evbak"/. evidence/; rm -rf "$evbak"
 find replays -name '*.json' -delete 2>/dev/null
 git -C /repo status --short
